@@ -50,12 +50,14 @@ FAM = {
     "legacy_forms": dict(derives=["IntoIterator", "TryInto", "Unwrap", "TryUnwrap"], item=None, name="{n}", atoms={
         "owned": "(owned)", "ref": "(ref)", "ref_mut": "(ref_mut)", "owned_ref": "(owned, ref)", "all3": "(owned, ref, ref_mut)", "unknown": "(frobnicate)",
         "list_param": "(owned(i32))", "name_value": "(owned = true)", "not_foreign": "(not(forward))", "not_unneg": "(not(owned))", "dup_flag": "(owned, ref, owned)"}),
+    "ignored_variant_field": dict(derives=["Unwrap", "TryUnwrap", "IsVariant", "TryInto"], item="enum S {{ #[{n}(ignore)] A({A} i32), B(u8) }}", name="{n}", atoms={
+        "unknown": "(frobnicate)", "form_on_field": "(owned)", "list_param": "(ignore(x))"}),
     "error_field": dict(derives=["Error"], item="struct S {{ {A} a: Inner, b: u8 }}", name="error", atoms={
         "source": "(source)", "not_source": "(not(source))", "backtrace": "(backtrace)", "ignore": "(ignore)", "source_backtrace": "(backtrace, source)",
         "unknown": "(frobnicate)", "nested_not": "(not(not(source)))", "not_unknown": "(not(frobnicate))", "list_param": "(source(x))",
         "not_foreign": "(not(forward))", "not_unneg": "(not(ignore))", "dup_flag": "(source, source)", "contra_flag": "(source, not(source))"}),
 }
-ATTRNAME = {"Display": "display", "Debug": "debug", "AsRef": "as_ref", "AsMut": "as_mut", "Deref": "deref", "DerefMut": "deref_mut",
+ATTRNAME = {"IsVariant": "is_variant", "Display": "display", "Debug": "debug", "AsRef": "as_ref", "AsMut": "as_mut", "Deref": "deref", "DerefMut": "deref_mut",
             "IntoIterator": "into_iterator", "TryInto": "try_into", "Unwrap": "unwrap", "TryUnwrap": "try_unwrap"}
 LEGACY_ITEMS = {"IntoIterator": "{A} struct S(Vec<u8>);", "TryInto": "{A} enum S {{ A(i32), B(u8) }}", "Unwrap": "{A} enum S {{ A(i32), B(u8) }}",
                 "TryUnwrap": "{A} enum S {{ A(i32), B(u8) }}"}
@@ -66,7 +68,7 @@ def render(fam, atoms, derive):
     name = F["name"].format(n=ATTRNAME.get(derive, derive.lower()))
     attrs = " ".join(f"#[{name}{F['atoms'][a]}]" for a in atoms)
     item = F["item"] or LEGACY_ITEMS[derive]
-    return item.format(A=attrs)
+    return item.format(A=attrs, n=name)
 
 
 def norm_impls(o):
